@@ -411,6 +411,20 @@ func gaussianPreconditions(c *core.Ctx, r *core.Report) {
 				okPos = false
 			}
 		}
+		// the divisor's constant default (mean weight 1 when no weights are given) is chosen only when the list is empty
+		for _, v := range vs {
+			phi, isPhi := an.Strip(v).(*ssa.Phi)
+			if !isPhi {
+				continue
+			}
+			for i, e := range phi.Edges {
+				if _, isK := e.(*ssa.Const); !isK {
+					continue
+				}
+				ok, why := edgeOnlyWhenEmpty(phi, i, ctor)
+				r.Check(ok, key+"#"+f+"-default-only-when-empty", c.Pos(phi.Pos()), "the constant default of "+f+" is taken only when no weights are given", "the constant default of "+f+" is also taken when weights are given ("+why+"): those weights are then divided by 1 instead of their mean, and the window requests weight× the configured volume")
+			}
+		}
 		r.Check(okPos, key+"#"+f+">0", c.Pos(lit.Pos()), "field "+f+" (a divisor of the rate) is positive when the calculator is returned", "field "+f+", which the rate is divided by, is not shown positive: weights that sum to zero give a NaN rate, i.e. a negative request")
 	}
 }
@@ -785,7 +799,7 @@ func init() {
 			gaussianPreconditions(c, r)
 		})
 	})
-	imported("C14", "C14.R11", "a gaussian trigger built from accepted input has a finite, non-negative rate (shared with C11.R6)", "C11", []string{"C11.R6"}, nil, 1)
+	imported("C14", "C14.R11", "a gaussian trigger built from accepted input has a finite, non-negative rate (shared with C11.R6)", "C11", []string{"C11.R6"}, func(o core.Obligation) bool { return !strings.Contains(o.Key, "default-only-when-empty") }, 1)
 	extra["C13"] = append(extra["C13"], func(c *core.Ctx, r *core.Report) {
 		rule(r, "C13.R5", "a stage without any jitter setting runs with zero jitter (the identity): the value a validator allocates for a missing jitter is the constant 0; and every Calculate*Rate applies jitter to the per-cycle rate before the distribution spreads it (so that the carry advances once per cycle)", func() {
 			n := 0
@@ -828,6 +842,16 @@ func init() {
 				}
 				return rel == "internal/run" && isMethodOf(an.Outermost(fn), runPkg, "Result")
 			}, 1)
+		})
+	})
+	extra["C19"] = append(extra["C19"], func(c *core.Ctx, r *core.Report) {
+		rule(r, "C19.R7", "the final summary is rendered from the final result: in the run's Do, nothing that writes the result (an error added, the totals taken, the test duration recorded) can execute after the summary was rendered", func() {
+			summaryAfterWrites(c, r)
+		})
+	})
+	extra["C15"] = append(extra["C15"], func(c *core.Ctx, r *core.Report) {
+		rule(r, "C15.R7", "the last hop of the limits: every run option is fed, in config-file mode, from the same-named field of the options the trigger carries (api.Options.X → RunOptions.X)", func() {
+			runOptionSources(c, r, []string{"MaxDuration", "Concurrency", "MaxIterations", "MaxFailures", "MaxFailuresRate", "IgnoreDropped"})
 		})
 	})
 	extra["C20"] = append(extra["C20"], func(c *core.Ctx, r *core.Report) {
@@ -930,6 +954,11 @@ func init() {
 	imported("C17", "C17.R6", "stage timings recorded with T.Time go to their own stage series, not into the iteration series whose durations this property is about (shared with C16.R1)", "C16", []string{"C16.R1"}, keyContains("RecordIterationStage#WithLabelValues"), 1)
 	imported("C01", "C01.R11", "the outcome is read once, after the recovered body and before the cleanups (shared with C07.R4), and every iteration or drop is observed in the metric unless iteration metrics are disabled (shared with C16.R4)", "C07", []string{"C07.R4"}, keyContains("#outcome-read"), 1)
 	imported("C01", "C01.R12", "every iteration or drop handed to the metrics is observed unless iteration metrics are disabled (shared with C16.R4)", "C16", []string{"C16.R4"}, keyContains("#always-unless-disabled", "#at-most-one", "#observe-site"), 2)
+	imported("C02", "C02.R7", "requests are discarded silently only at the configured limit: the limit the allocator enforces is the max-iterations option (shared with C03.R7)", "C03", []string{"C03.R7"}, nil, 1)
+	imported("C05", "C05.R13", "the run stops at the max-iterations limit for every N > 0: the allocator refuses ids above the limit (shared with C03.R2)", "C03", []string{"C03.R2"}, nil, 1)
+	imported("C01", "C01.R13", "a failure is attributed to the phase it happened in: a failing cleanup does not turn a passed iteration into a failed one (shared with C07.R3)", "C07", []string{"C07.R3"}, keyContains("#failed-phase", "#marks-once"), 1)
+	imported("C07", "C07.R7", "a failed iteration is reported as failed in the result: the drained per-period figures are merged into the lifetime totals unconditionally and each result kind is routed to its own accumulator (shared with C01.R4, C01.R6)", "C01", []string{"C01.R4", "C01.R6"}, nil, 4)
+	imported("C08", "C08.R9", "the counts the verdict is computed from are the recorded ones: drained figures reach the lifetime totals and each result kind its own accumulator (shared with C01.R4, C01.R6)", "C01", []string{"C01.R4", "C01.R6"}, nil, 4)
 	imported("C03", "C03.R8", "in config-file mode the limit handed to the run is the file's max-iterations (shared with C15.R4)", "C15", []string{"C15.R4"}, keyContains("MaxIterations"), 1)
 	imported("C08", "C08.R8", "in config-file mode the tolerances handed to the run are the file's own (shared with C15.R4)", "C15", []string{"C15.R4"}, keyContains("axFailures", "IgnoreDropped"), 3)
 	imported("C05", "C05.R11", "in config-file mode the duration limit handed to the run is the file's max-duration (shared with C15.R4)", "C15", []string{"C15.R4"}, keyContains("MaxDuration"), 1)
@@ -938,4 +967,131 @@ func init() {
 	imported("C19", "C19.R5", "the banner is chosen by a verdict that is a function of the counts and options only (shared with C08.R1)", "C08", []string{"C08.R1"}, nil, 1)
 	imported("C18", "C18.R5", "the runner is stopped on every path after it was started (shared with C05.R3)", "C05", []string{"C05.R3"}, keyContains("progress-region", "progress-start"), 0)
 	imported("C20", "C20.R4", "a stop inside a component unwinds to the runner's frame: recover is called only by the classifier deferred from frames that call user code, and the pooled handle is fully reset between iterations (shared with C07.R4, C07.R6)", "C07", []string{"C07.R4", "C07.R6"}, nil, 3)
+}
+
+// mayRunAfter reports whether event w can execute after event s (same root), defers running last-in first-out
+// when their frame exits.
+func mayRunAfter(w, s an.Event) bool {
+	cw, cs := an.Chain(w), an.Chain(s)
+	for i := 0; i < len(cw) && i < len(cs); i++ {
+		if cw[i] == cs[i] {
+			continue
+		}
+		_, dw := cw[i].(*ssa.Defer)
+		_, ds := cs[i].(*ssa.Defer)
+		switch {
+		case dw && ds:
+			return an.ReachableFrom(cw[i], cs[i])
+		case dw:
+			return an.ReachableFrom(cw[i], cs[i]) || an.ReachableFrom(cs[i], cw[i])
+		case ds:
+			return false
+		default:
+			return an.ReachableFrom(cs[i], cw[i])
+		}
+	}
+	return false
+}
+
+func summaryAfterWrites(c *core.Ctx, r *core.Report) {
+	do, _ := runDo(c)
+	if do == nil {
+		r.Undecided("anchor", "-", "the run's Do not found")
+		return
+	}
+	isSummary := func(_ ssa.CallInstruction, t *ssa.Function) bool {
+		if t == nil || !isMethodOf(t, runPkg, "Result") || t.Signature.Results().Len() != 1 {
+			return false
+		}
+		return strings.Contains(t.Signature.Results().At(0).Type().String(), "views.ResultData")
+	}
+	writes := func(t *ssa.Function) bool {
+		if t == nil || !isMethodOf(t, runPkg, "Result") || t.Blocks == nil {
+			return false
+		}
+		w := false
+		an.Instrs(t, func(in ssa.Instruction) {
+			if st, ok := in.(*ssa.Store); ok {
+				if fa, ok := st.Addr.(*ssa.FieldAddr); ok && len(t.Params) > 0 && an.Strip(fa.X) == ssa.Value(t.Params[0]) {
+					w = true
+				}
+			}
+		})
+		return w
+	}
+	sums := an.FlatCalls(do, flatDepth, isSummary)
+	if !r.Floor("summary renderings in Do", len(sums), 1) {
+		return
+	}
+	ws := an.FlatCalls(do, flatDepth, func(_ ssa.CallInstruction, t *ssa.Function) bool { return writes(t) })
+	r.Floor("result writes in Do", len(ws), 3)
+	for _, s := range sums {
+		for _, w := range ws {
+			key := core.FuncName(do) + "#summary-after:" + an.Callee(w.Call()).Name() + "@" + core.FuncName(w.Instr.Parent())
+			r.Check(!mayRunAfter(w, s), key, an.Pos(c, w.Instr), "runs before the summary is rendered", "this write of the result ("+an.Callee(w.Call()).Name()+") can execute after the summary was rendered at "+an.Pos(c, s.Instr)+": the banner and counts printed are not those of the result the run returns")
+		}
+	}
+}
+
+// edgeOnlyWhenEmpty: edge i of phi is reached only under a test implying len(p) == 0 for a slice parameter p of fn.
+func edgeOnlyWhenEmpty(phi *ssa.Phi, i int, fn *ssa.Function) (bool, string) {
+	to := phi.Block()
+	b := to.Preds[i]
+	for {
+		if _, isIf := b.Instrs[len(b.Instrs)-1].(*ssa.If); isIf {
+			break
+		}
+		if len(b.Preds) != 1 || len(b.Instrs) != 1 {
+			return false, "the default is not selected by a test of the list's length"
+		}
+		to, b = b, b.Preds[0]
+	}
+	iff := b.Instrs[len(b.Instrs)-1].(*ssa.If)
+	taken := b.Succs[0] == to
+	bo, ok := an.Strip(iff.Cond).(*ssa.BinOp)
+	if !ok {
+		return false, "the default is not selected by a test of the list's length"
+	}
+	x, y, op := bo.X, bo.Y, bo.Op
+	if _, isK := x.(*ssa.Const); isK {
+		x, y = y, x
+		switch op {
+		case token.LSS:
+			op = token.GTR
+		case token.GTR:
+			op = token.LSS
+		case token.LEQ:
+			op = token.GEQ
+		case token.GEQ:
+			op = token.LEQ
+		}
+	}
+	call, isCall := an.Strip(x).(*ssa.Call)
+	k, isK := y.(*ssa.Const)
+	if !isCall || !an.IsBuiltinCall(call, "len") || !isK || k.Value == nil {
+		return false, "the default is not selected by a test of the list's length"
+	}
+	if _, isParam := an.Strip(call.Call.Args[0]).(*ssa.Parameter); !isParam {
+		return false, "the length tested is not that of a parameter"
+	}
+	n := k.Int64()
+	if !taken {
+		switch op {
+		case token.GTR:
+			op = token.LEQ
+		case token.GEQ:
+			op = token.LSS
+		case token.LSS:
+			op = token.GEQ
+		case token.LEQ:
+			op = token.GTR
+		case token.EQL:
+			op = token.NEQ
+		case token.NEQ:
+			op = token.EQL
+		}
+	}
+	// on this edge: len op n; it must imply len <= 0
+	implies := (op == token.LEQ && n <= 0) || (op == token.LSS && n <= 1) || (op == token.EQL && n == 0)
+	return implies, sprintf("on this edge len(%s) %s %d", an.D().Of(call.Call.Args[0]), op, n)
 }
